@@ -11,6 +11,8 @@
      - dispatching disabled: no such call inside the operation; the calls are
        owed, one group per operation, and the next SetEnabled true delivers
        every group, in operation order, nothing else;  clear() may not drop them;
+       if a delivered callback raises, the enabling assignment raises, what was
+       not delivered stays owed in order and is delivered by the next one;
      - is_handler(i) holds exactly while i sits in a slot, and a probe event
        dispatched while enabled reaches exactly the attached listeners, once.
    Models only: no proofs in this file. *)
@@ -84,6 +86,26 @@ Definition probe_check (p : params) (s : s5) (tok : Z) (log : list cb) : bool :=
   && forallb (fun i => negb (k_probe (kind_of p i) && attached_b p (att s) i)
                        || zmem i (map c_i pl)) (akeys (p_cls p)).
 
+(* a release interrupted by a raising callback: the calls made, one after the
+   other, each taken from the oldest group that still owes something; the
+   raising call is the last; what was not called stays owed, in order *)
+Fixpoint otake (c : cb) (gs : list (list cb)) : option (list (list cb)) :=
+  match gs with
+  | [] => None
+  | [] :: gs => otake c gs
+  | g :: gs => match remove1 cb_eqb c g with Some g' => Some (g' :: gs) | None => None end
+  end.
+Fixpoint owed_raise (gs : list (list cb)) (lc : list cb) : option (list (list cb)) :=
+  match lc with
+  | [] => None
+  | c :: lc' =>
+      match otake c gs with
+      | None => None
+      | Some gs' => if raises (c_i c) then (if nil_b lc' then Some gs' else None)
+                    else owed_raise gs' lc'
+      end
+  end.
+
 (* lifecycle calls of the operation against what is owed; returns the new debt *)
 Definition lc_check (p : params) (s : s5) (owed : list (list cb)) (o : op) (ob : obs)
   : option (list (list cb)) :=
@@ -91,10 +113,12 @@ Definition lc_check (p : params) (s : s5) (owed : list (list cb)) (o : op) (ob :
   let lc := filter is_lc (o_log ob) in
   match o with
   | SetEnabled true =>
-      if match_groups lc (if en s then owed else owed ++ [n]) then Some [] else None
+      let ow := if en s then owed else owed ++ [n] in
+      if o_exc ob =? 3 then owed_raise ow lc          (* a callback raised: the rest stays owed *)
+      else if match_groups lc ow then Some [] else None
   | Clear =>
-      (* clear() leaves dispatching enabled: whatever was owed is due now *)
-      if (if en s then cperm_b lc n else match_groups lc (owed ++ [n])) then Some [] else None
+      (* clear() leaves dispatching enabled with an empty queue: whatever is owed is due now *)
+      if match_groups lc (owed ++ [n]) then Some [] else None
   | _ =>
       if en s then (if cperm_b lc n then Some owed else None)
       else (if nil_b lc then Some (owed ++ [n]) else None)
@@ -131,9 +155,11 @@ Definition holds (c : L_case) : Prop := holds_b c = true.
 (* ---- known findings (exactly these call patterns) --------------------------------- *)
 Definition is_some {A} (x : option A) : bool := match x with Some _ => true | None => false end.
 
-Definition known_step (p : params) (s : s5) (o : op) : bool :=
+(* [partial]: the last release was interrupted by a raising callback, so that
+   postponed notifications are still waiting although dispatching is enabled *)
+Definition known_step (p : params) (s : s5) (partial : bool) (o : op) : bool :=
   match o with
-  | Clear => negb (en s)                                            (* K1 *)
+  | Clear => negb (en s) || partial                                  (* K1: clear() while postponed *)
   | Create eid comps =>
       negb (znodup_b (map (ty_of p) comps))                          (* K2: one type twice *)
       || match eid with
@@ -146,14 +172,23 @@ Definition known_step (p : params) (s : s5) (o : op) : bool :=
   | _ => false
   end.
 
-Fixpoint known_from (p : params) (s : s5) (tr : trace) : bool :=
+Definition partial_next (partial : bool) (o : op) (ob : obs) : bool :=
+  match o with
+  | SetEnabled true => negb (o_exc ob =? 0)
+  | Clear => false
+  | _ => partial
+  end.
+Fixpoint known_from (p : params) (s : s5) (partial : bool) (tr : trace) : bool :=
   match tr with
   | [] => false
   | (o, ob) :: tr =>
-      known_step p s o
-      || match step5 p s o ob with Some s' => known_from p s' tr | None => false end
+      known_step p s partial o
+      || match step5 p s o ob with
+         | Some s' => known_from p s' (partial_next partial o ob) tr
+         | None => false
+         end
   end.
-Definition known_b (c : L_case) : bool := known_from (c_p c) s5_init (c_tr c).
+Definition known_b (c : L_case) : bool := known_from (c_p c) s5_init false (c_tr c).
 
 (* input domain: every instance an operation mentions has a declared class *)
 Definition op_insts (o : op) : list Z :=
